@@ -375,6 +375,13 @@ impl Duration {
         }
     }
 
+    /// Returns the exact signed count of nanoseconds of this duration: the nanoseconds always count
+    /// forward into the century, including for negative centuries.
+    pub(crate) fn exact_total_nanoseconds(&self) -> i128 {
+        i128::from(self.centuries) * i128::from(NANOSECONDS_PER_CENTURY)
+            + i128::from(self.nanoseconds)
+    }
+
     /// Returns the truncated nanoseconds in a signed 64 bit integer, if the duration fits.
     pub fn try_truncated_nanoseconds(&self) -> Result<i64, HifitimeError> {
         // If it fits, we know that the nanoseconds also fit. abs() will fail if the centuries are min'ed out.
